@@ -1070,6 +1070,38 @@ func scanSampleF(c *core.Ctx) []ob {
 			return
 		}
 		ord := 0
+		// the target polynomial is only written through f: a whole-polynomial pass over it afterwards
+		// (a domain conversion, a reduction) would also rewrite what f combined the samples with
+		polyParams := map[types.Object]bool{}
+		if fn, ok := info.Defs[fd.Name].(*types.Func); ok {
+			sg := fn.Type().(*types.Signature)
+			for i := 0; i < sg.Params().Len(); i++ {
+				if polyish(sg.Params().At(i).Type()) {
+					polyParams[sg.Params().At(i)] = true
+				}
+			}
+		}
+		eff := effFor(c)
+		ast.Inspect(fd.Body, func(x ast.Node) bool {
+			call, ok := x.(*ast.CallExpr)
+			if !ok {
+				return true
+			}
+			for _, cf := range eff.callees(info, call) {
+				sm := eff.sums[cf]
+				if sm == nil {
+					continue
+				}
+				for ai, a := range call.Args {
+					if sm.wParams[ai] && polyParams[identObj(info, a)] {
+						n++
+						key := fmt.Sprintf("SAMPLEF:%s#call(%s)", fkey, cf.Name())
+						out = append(out, violOb("SAMPLEF", key, c.Rel(call.Pos()), fmt.Sprintf("%s passes its target polynomial %s to %s, which rewrites it as a whole, although the samples are combined with the previous content through %s: under ReadAndAdd the previous content is transformed as well", fkey, exprString(a), cf.Name(), fobj.Name())))
+					}
+				}
+			}
+			return true
+		})
 		ast.Inspect(fd.Body, func(x ast.Node) bool {
 			as, ok := x.(*ast.AssignStmt)
 			if !ok || len(as.Lhs) != 1 || len(as.Rhs) != 1 {
